@@ -2,7 +2,7 @@
 From Spg.Base Require Import Prelude Utf8 Bytes.
 From Spg.Model Require Import Tables Rand GenM CharSets CharGen Token WordList WordGen.
 From Spg.Proofs Require Import RandProofs GenProofs CharGenProofs WordGenProofs ProdProofs WordProdProofs WordDecodeProofs
-  WordEntropyProofs WordFinalProofs.
+  WordEntropyProofs WordFinalProofs WordPicksProofs RawProofs LimitProofs.
 From Coq Require Import QArith.
 Close Scope N_scope. Close Scope Q_scope. Open Scope nat_scope.
 
@@ -92,6 +92,32 @@ Example C04_digits_infallible : exists r, SFDigits1 = SepRecipe r /\
   (1 <= crLength r)%Z /\ alphabet r <> [] /\ live_sets r = [] /\ accepted default_budget r = true /\ recipe_count r = 10%Z.
 Proof. eexists. split; [reflexivity|]. vm_compute. repeat split; discriminate. Qed.
 
+(** From raw bytes to these probabilities.  The wordlist generator's draws are
+    well formed — fewer than 2^32 words (NewWordList refuses more), Length below
+    2^32, separator alphabets below 2^32 (true of every preset) — so it falls
+    under the raw-word layer of C01/C02: the fraction of uniform tapes of raw
+    32-bit words on which the tape interpreter (the function compared with the Go
+    code) has returned a given result within M words never exceeds its ideal
+    probability, is within u (depth g) M of it, and converges to it. *)
+Theorem C04_generator_picks_ok : forall title b r,
+  (N.of_nat (wl_size r) < W32)%N -> (wrLength r < Z.of_N W32)%Z -> sep_small (wrSep r) ->
+  picks_ok (wl_generate title b r).
+Proof. exact wl_generate_picks_ok. Qed.
+Theorem C04_presets_small : sep_small SFNone /\ sep_small SFDigits1 /\ sep_small SFDigits2 /\ sep_small SFDigitsNoAmbiguous1 /\
+  sep_small SFDigitsNoAmbiguous2 /\ sep_small SFSymbols /\ sep_small SFDigitsSymbols.
+Proof. exact presets_small. Qed.
+Theorem C04_frequencies_over_byte_tapes : forall title b r (aeqb : _ -> _ -> bool) a,
+  (N.of_nat (wl_size r) < W32)%N -> (wrLength r < Z.of_N W32)%Z -> sep_small (wrSep r) ->
+  let g := wl_generate title b r in
+  (forall M, (freq32 aeqb a M g <= ideal aeqb a g /\ ideal aeqb a g - freq32 aeqb a M g <= u (depth g) M)%Q) /\
+  (forall eps, (0 < eps)%Q -> exists M0, forall M, (M0 <= M)%nat ->
+     (ideal aeqb a g - eps <= freq32 aeqb a M g /\ freq32 aeqb a M g <= ideal aeqb a g)%Q).
+Proof.
+  intros title b r aeqb a H1 H2 H3 g.
+  assert (Hok : picks_ok g) by (apply wl_generate_picks_ok; assumption).
+  split; [intros M; apply frequency_sandwich; exact Hok|apply frequency_converges; exact Hok].
+Qed.
+
 Print Assumptions C04_product.
 Print Assumptions C04_words_uniform.
 Print Assumptions C04_caps_uniform.
@@ -103,3 +129,6 @@ Print Assumptions C04_premises_from_NewWordList.
 Print Assumptions C04_sep_char.
 Print Assumptions C04_sep_const.
 Print Assumptions C04_sep_recipe.
+Print Assumptions C04_generator_picks_ok.
+Print Assumptions C04_presets_small.
+Print Assumptions C04_frequencies_over_byte_tapes.
